@@ -60,4 +60,10 @@ PROPS["C18"] = {
     "assumptions": ["geometric convention pinned by the unambiguous flips/half-turn: ROTATE90CW (x,y)->(-y,x) on a y-down screen", "satisfaction is defined by the library's own translation to VPSC constraints, so the check is about commutation, not about sign conventions"],
     "parts": [{"name": "transforms", "src": "c18_transforms.cpp", "quick": T(100, 20, [], 100), "thorough": T(1200, 20, [], 100)}],
 }
+PROPS["C19"] = {
+    "rule": "every labelled connected simple graph on n nodes through peel (node/edge partition, trees acyclic+connected, roots shared with core, core has no degree-1 node); every labelled simple graph through getConnComps; every rooted tree (parent[i]<i) x 4 growth directions x 2 orderings through Tree::symmetricLayout (no two nodes on top of each other); every labelled leafless connected graph routed by LeaflessOrthoRouter through OrthoPlanariser (no crossing left, every original node present, former neighbours connected through new nodes only). Non-trivial = peel removes a tree / graph disconnected / routed form has a crossing.",
+    "bounds": {"quick": "peel n<=6, components n<=5, trees n<=6, planarise n<=5", "thorough": "peel n<=7, components n<=6, trees n<=8, planarise n<=6"},
+    "assumptions": ["graphs up to ~60 nodes are outside the bound; all graphs up to the stated n are covered instead"],
+    "parts": [{"name": "decomp", "src": "c19_decomp.cpp", "quick": T(100, 30, [], 100), "thorough": T(1500, 60, [], 100)}],
+}
 NOT_APPLICABLE = {}
